@@ -4,7 +4,7 @@
    panics.  [panics_gen f] is parameterised by which of the three repairs are present
      c3de1fc  f_siglen   eipVerify tests len(signature) before indexing sig[64]
      c47eaee  f_nilbid   VerifyPreConfirmation tests c.Bid == nil
-     07b5b6d  f_metrics  libp2p.New always creates the handshake failure counters
+     1f15f90  f_metrics  libp2p.New always creates the handshake failure counters
    [panics] = all three present (the tree as it is now), [panics_v0] = none (the snapshot).
    The summaries are computed by the drivers with go-ethereum / math/big only (never with the
    function under test).  Definitions only.
@@ -206,9 +206,13 @@ Definition expected_result (i : entry_input) : option N :=
   | EReadMsg FWrongInner => None
   | EReadMsg FWrongOuter => None
   | EReadMsg FRandom => None
+  | EReadMsg FErrorFrame => None          (* a status with code OK yields a nil error *)
   | EReadMsg _ => Some 1
   | EReadHeader FValid => Some 0
   | EReadHeader (FOversized | FTruncated | FEof) => Some 1
+  (* end to end the result class is the liveness probe: after the hostile exchange an honest
+     peer is still admitted (0) *)
+  | EE2EInbound _ _ | EE2EOutbound _ _ => Some 0
   | _ => None
   end.
 
